@@ -150,7 +150,7 @@ Definition labels_of (s : state) (e : event) : label * list label :=
   | EPass i => (LPass i, [])
   | EDial c ok => (LDialRet c ok, [])
   | EFailGo c => (LFailLock c, [])
-  | ERelease i => (LRelease i, [])
+  | ERelease i => (LRelBegin i, [LRelease i])
   | ECancel i => (LCancel i, [LDialCtx i])   (* the scripted Dial honours its context *)
   end.
 
